@@ -163,9 +163,10 @@ def strict_json(obj):
 
 def project_description(desc, c):
     """describe reply -> desc[m][w] of Describe.tla, interface classes, features"""
-    out, iface, feat = {}, {}, {}
+    out, iface, feat, units = {}, {}, {}, {}
     for m, md in desc['modules'].items():
         accs = {}
+        units[m] = {w: str(ad['datainfo'].get('unit', '')) for w, ad in md['accessibles'].items()}
         for w, ad in md['accessibles'].items():
             info = ad['datainfo']
             if info.get('type') == 'command':
@@ -176,7 +177,7 @@ def project_description(desc, c):
         out[m] = accs
         iface[m] = list(md.get('interface_classes', []))
         feat[m] = list(md.get('features', []))
-    return out, iface, feat
+    return out, iface, feat, units
 
 
 # ------------------------------------------------------------------ probing a node
@@ -276,8 +277,12 @@ class Prober:
             c = Rank(nums)
         else:
             c = Ident()
-        desc, iface, feat = project_description(self.desc, c)
-        first = {'ev': 'describe', 'desc': desc, 'iface': iface, 'features': feat, 'expect': expect,
+        desc, iface, feat, units = project_description(self.desc, c)
+        for m in expect:
+            if 'units' not in expect[m]:      # unknown: at least no '$' may be left where the module has a main unit
+                main = units.get(m, {}).get('value', '')
+                expect[m]['units'] = {w: (u.replace('$', main) if main else u) for w, u in units.get(m, {}).items()}
+        first = {'ev': 'describe', 'desc': desc, 'iface': iface, 'features': feat, 'units': units, 'expect': expect,
                  'stable': self.stable, 'strict': self.strict and self.ok,
                  'expdesc': expdesc if expdesc is not None else NULL}
         tr = [first]
@@ -333,6 +338,10 @@ def _random_node(seed):
         for a in accs.values():
             if a['kind'] == 'param' and rnd.random() < 0.6:
                 a['hooks'] = [h for h in a['hooks'] if h['at'] == 'LIMIT']
+    for accs in shape.values():            # units; '$' must come out as the unit of the module's value
+        for attr, a in accs.items():
+            if a['kind'] == 'param' and a['dt']['t'] == 'double' and not a.get('islimit') and rnd.random() < 0.6:
+                a['unit'] = rnd.choice(['K', 'mbar']) if attr == 'value' else rnd.choice(['$', '$/min', 's', 'V/$'])
     bases = {}
     for m, accs in shape.items():
         b = rnd.choice(['Module', 'Module', 'Readable', 'Writable', 'Drivable'])
@@ -342,7 +351,7 @@ def _random_node(seed):
     p = Prober(w.srv.dispatcher)
     p.first_reads()
     c = Ident()
-    desc, _, _ = project_description(p.desc, c)
+    desc, _, _, _ = project_description(p.desc, c)
     names = [(m, n) for m in desc for n in desc[m]]
     attrs = [(m, a) for m in shape for a in shape[m]]
     hidden = [(m, x['cls_wire']) for m in shape for x in shape[m].values() if 'cls_wire' in x]
@@ -370,7 +379,16 @@ def _random_node(seed):
                     and all(isinstance(x, (int, float)) for x in pay):
                 pay.sort()
         p.request(act, m, n, pay, _strict(shape, m, n))
-    return {'trace': p.trace(_expect_of(shape, bases)), 'hidden': [list(h) for h in hidden]}
+    expect = _expect_of(shape, bases)
+    for m, accs in shape.items():
+        if bases.get(m, 'Module') != 'Module':
+            continue                      # (inherited accessibles carry units of their own)
+        main = accs.get('value', {}).get('unit', '')
+        expect[m]['units'] = {w: '' for w in expect[m]['wires']}
+        for a in accs.values():
+            if a['wire'] and a.get('unit'):
+                expect[m]['units'][a['wire']] = a['unit'].replace('$', main) if main else a['unit']
+    return {'trace': p.trace(expect), 'hidden': [list(h) for h in hidden]}
 
 
 # ---- code -> spec: shipped configurations
